@@ -48,13 +48,15 @@ def make_project(seed, root):
     src = os.path.join(root, "src")
     os.makedirs(src)
     ctx = genmodels.Ctx(rng, docs=True)
+    rich = seed % 2 == 1  # multi-paragraph documentation: summaries end in "Read more" links
+    ctx.rich = rich
     files = []
     if shape == "random":
-        files = genmodels.gen_project(seed, docs=True)
+        files = genmodels.gen_project(seed, docs=True, rich_docs=rich)
     elif shape == "many":
-        files = genmodels.gen_project(seed, nfiles=5, docs=True)
+        files = genmodels.gen_project(seed, nfiles=5, docs=True, rich_docs=rich)
     elif shape == "single_file":
-        files = genmodels.gen_project(seed, nfiles=1, docs=True)
+        files = genmodels.gen_project(seed, nfiles=1, docs=True, rich_docs=rich)
     elif shape == "no_modules":
         f = fgen.SrcFile(f"nm{seed}")
         f.units = [genmodels.gen_proc(ctx, [], []), genmodels.gen_proc(ctx, [], []), genmodels.gen_program(ctx, [])]
